@@ -27,13 +27,14 @@ prop("C04", "Unbounded proof of the receiver's ordering gate: a file is finalize
       S+"finalize": ["releases-after-delivery", "releases-own-waiters", "releases-waiters", "failure-releases-nothing", "each-waiter-queued"],
       S+"putFileAway": ["log-before-move"],
       S+"fromWait": None, S+"detectWaitLoop": None, S+"cleanWaiting": None})
-prop("C05", "Unbounded proof of the duplicate-handling guards: a complete duplicate of a known (not failed) version with the same hash is discarded and never renamed, cached or queued again; exactly one receive-log record per put-away; a part of a known version is answered 'already received' without touching the stage",
-     "cache ageing (clock), log refill window, interleavings (A1)",
+prop("C05", "Unbounded proof of the duplicate-handling guards: a complete duplicate of a known (not failed) version with the same hash is discarded and never renamed, cached or queued again; exactly one receive-log record per put-away; a part of a known version is answered 'already received' without touching the stage; ageing of the in-memory delivery record drops only delivered, aged entries, and the watermark from which the record counts as complete is only ever lowered to the logged time of an entry that stays",
+     "completeness of the in-memory record above the watermark as a data-structure invariant (only the per-pass discipline of cleanCache is proved), log refill window, interleavings (A1)",
      {S+"Receive": ["complete-duplicate-ignored", "duplicate-body-removed", "companion-removed-only-when-finalized", "removes-only-own-files", "caches-received-or-failed"],
       S+"process": ["ignore-unless-received", "caches-this-file"],
       S+"finalize": ["only-validated"],
       S+"putFileAway": ["one-record-per-call", "finalized-after-move"],
-      S+"partReceived": ["known-file-answers-yes", "yes-needs-record-or-known-file"]})
+      S+"partReceived": ["known-file-answers-yes", "yes-needs-record-or-known-file"],
+      S+"cleanCache": None})
 prop("C06", "Unbounded proof of the write-ahead orderings inside each receiver function that the crash argument rests on: data written and closed before the companion records it, companion written before the rename to .full, receive-log record before the move, state finalized and companion removal only after a successful move (narrow claim: no crash image is enumerated)",
      "the crash-point quantifier itself: no crash image is enumerated, only the ordering discipline is proved; Recover's case analysis and fileutil.Move are listed in the evidence when under contract",
      {S+"Receive": ["data-before-record", "record-before-rename", "copy-error-is-reported", "record-error-is-reported", "completeness-of-written-record", "copies-into-the-partial", "companion-removed-only-when-finalized", "duplicate-body-removed"],
